@@ -871,7 +871,9 @@ Definition read_src (s : sleaf) (src : rsrc) (w : wire) : sres :=
   match src, w with
   | RUntil, (WInt _ | WLong _ | WDouble _) => SV (XStr (num_text w))
   | RChar, WChar c => match s with SBytes => SV (XBytes c) | _ => SV (XStr c) end
-  | RString, WStr str => match s with SBytes => SV (XBytes str) | _ => SV (XStr str) end
+  | RString, WStr str =>
+      (* readStringAsBytes(0) / ToUnsafeBytes("") give a nil slice *)
+      match s with SBytes => SV (match str with [] => XNil | _ => XBytes str end) | _ => SV (XStr str) end
   | RBytes, WBytes b =>
       match s with
       | SString => SV (XStr b)
@@ -1147,7 +1149,7 @@ Fixpoint convert (s : gtype) (o : xval) (t : gtype) (pl : place) (st : dstate) {
     | TPtr TBigInt => store_sres (parse_str orc PBigInt 0 NtBigInt str) false XNil pl st
     | TPtr TBigFloat => store_sres (parse_str orc PBigFloat 0 NtBigFloat str) false XNil pl st
     | TPtr TBigRat => store_sres (parse_str orc PBigRat 0 NtBigRat str) false XNil pl st
-    | TBytes => wr_or_panic st pl (XBytes str)
+    | TBytes => wr_or_panic st pl (match str with [] => XNil | _ => XBytes str end)
     | TTime => store_sres (parse_str orc PTime 0 NtTime str) false XNil pl st
     | _ => store_sres (parse_str orc PUuid 0 NtUuid str) false XNil pl st
     end
